@@ -40,7 +40,8 @@ def _corpus():
     strs = ["", "A", "C", "F", "CF", "CW", "CC", "CAF", "CASSF", "CASSLGQAYEQYF", "CASSW", "CASSC", "CASSA", "ASSF", "casf", "CAS F", "CAS1F", "CASXF",
             "CASBF", "CASZF", "CASJF", "CASOF", "CASUF", "C-F", "C.F", "C_F", "CAS*F", " CASSF", "CASSF ", "CASSF\n", "\tC", "ACDEFGHIKLMNPQRSTVWY",
             "ACDEFGHIKLMNPQRSTVWYB", "αβγ", "汉字", "\U0001F600", "CéF", "nan", "None", "NaN", "0", "123", "C1", "cF", "Cf", "FC", "WC", "FAC",
-            "X", "B", "Z", "J", "O", "U", "*", "-", ".", " ", "  ", "CAS\x00F", "C" * 200 + "F", "A" * 500]
+            "X", "B", "Z", "J", "O", "U", "*", "-", ".", " ", "  ", "CAS\x00F", "C" * 200 + "F", "A" * 500,
+            "CASSL\udcffGQGYEQYF", "\ud800", "C\udfffF", "CASSF\x00", "\x00", "C\u200bF", "CASSF\r", "\x7f", "C\xa0F"]       # lone surrogates, NUL, invisible characters
     objs = [(s, "str") for s in strs]
     others = [None, float("nan"), np.nan, pd.NA, pd.NaT, 0, 1, -1, 7, 10 ** 20, 0.0, 1.5, -2.5, float("inf"), True, False, b"", b"CASSF", b"C", bytearray(b"CAF"),
               [], ["C", "A", "F"], ["CASSF"], [1, 2], (), ("C", "F"), ("C",), {}, {"C": 1}, {"C": 1, "F": 2}, set(), {"C"}, {"C", "F"}, frozenset({"A"}),
@@ -456,6 +457,10 @@ def generate(tier, seed):
     yield "multimerge", {"tables": base, "on": "index"}, True
     yield "multimerge", {"tables": base, "on": "index", "suffixes": ["s1", "s2"]}, True
     yield "multimerge", {"tables": base, "on": "k", "how": "inner"}, True
+    # key columns with falsy labels (the column named 0 of header-less tables, the empty string)
+    for on in (0, ""):
+        yield "multimerge", {"tables": base, "on": on}, True
+        yield "multimerge", {"tables": base, "on": on, "suffixes": ["s1", "s2"]}, True
     four = [{"name": "a", "cols": ["x"], "rows": [["k1", 1], ["k2", 2], ["k3", 3]]}, {"name": "b", "cols": ["y"], "rows": [["k2", 3], ["k3", 4]]},
             {"name": "c", "cols": ["z"], "rows": [["k2", 5], ["k4", 6]]}, {"name": "d", "cols": ["w"], "rows": [["k1", 7], ["k3", 8], ["k4", 9]]}]
     for how in ("left", "right", "inner", None):
